@@ -3,6 +3,7 @@ import re
 import z3
 
 from .interp import Panic, Unsupported, HarnessStop, resolve, exec_func, binop, ty_bits, norm_type
+from .vals import inner_ref as R
 from .vals import (Agg, VecV, MapV, SymStr, CellV, Ref, FnPtr, Opaque, PathV, FmtV, UNIT, NONE, some, ok, err, tup, is_sym,
                    seq_items, rebuild_seq, assemble, deref_all as D)
 
@@ -27,17 +28,17 @@ def install(prog):
 
     @B('PathBuf::push')
     def b_path_push(ctx, a, callee):
-        p = to_path(a[0].load())
+        p = to_path(R(a[0]).load())
         q = to_path(a[1])
-        a[0].store(q if q.absolute else PathV(p.absolute, p.comps + q.comps))
+        R(a[0]).store(q if q.absolute else PathV(p.absolute, p.comps + q.comps))
         return UNIT
 
     @B('PathBuf::pop')
     def b_path_pop(ctx, a, callee):
-        p = to_path(a[0].load())
+        p = to_path(R(a[0]).load())
         if not p.comps:
             return False
-        a[0].store(PathV(p.absolute, p.comps[:-1]))
+        R(a[0]).store(PathV(p.absolute, p.comps[:-1]))
         return True
 
     @B('Path::parent')
@@ -106,7 +107,7 @@ def install(prog):
 
     @B('PathBuf::set_extension')
     def b_set_extension(ctx, a, callee):
-        a[0].store(b_with_extension(ctx, [a[0].load(), a[1]], callee))
+        R(a[0]).store(b_with_extension(ctx, [R(a[0]).load(), a[1]], callee))
         return True
 
     @B('Path::components')
@@ -189,8 +190,8 @@ def install(prog):
     def b_read_to_string(ctx, a, callee):
         f = D(a[0])
         content = f.fields[1].slot[0]
-        cur = a[1].load()
-        a[1].store(assemble([cur, content]))
+        cur = R(a[1]).load()
+        R(a[1]).store(assemble([cur, content]))
         from .bi_str import sbytes
         return ok(len(sbytes(content)))
 
@@ -199,8 +200,8 @@ def install(prog):
         f = D(a[0])
         content = f.fields[1].slot[0]
         from .bi_str import sbytes
-        cur = a[1].load()
-        a[1].store(VecV(tuple(cur.items) + tuple(sbytes(content))))
+        cur = R(a[1]).load()
+        R(a[1]).store(VecV(tuple(cur.items) + tuple(sbytes(content))))
         return ok(len(sbytes(content)))
 
     @B('std::fs::read_to_string', 'read_to_string')
